@@ -1,7 +1,13 @@
 // Command facts re-reads the lura sources (go/ast, standard library only) and prints
-// coq/Generated/SourceFacts.v: the constants, tables and lock bracketing the Coq models
-// were written against.  A pattern that is not found is emitted as the marker "Unknown"
-// (strings) or -1 (numbers), so that Generated/FactsOK.v stops compiling.
+// coq/Generated/SourceFacts.v: the constants, orders, channel capacities, context
+// derivations and lock bracketing the Coq models were written against.
+//
+// The facts are SEMANTIC summaries, not source text, so that a behaviour-preserving rewrite
+// (renamed locals, extracted helpers, defer instead of explicit unlocks, swapped select cases,
+// functions moved to another file of the package) regenerates the same facts, while a change of
+// what the theorems rest on (a factor, an order, an unbuffered channel, a context derived from
+// Background, an access outside its lock) changes them.  A pattern that is not found at all is
+// emitted as "Unknown" / -1 and the obligation in Generated/Facts_<topic>.v stops compiling.
 package main
 
 import (
@@ -20,7 +26,38 @@ import (
 var fset = token.NewFileSet()
 var root string
 
-func parse(rel string) *ast.File {
+// ---------------------------------------------------------------------------------------
+// parsing helpers
+
+var pkgCache = map[string][]*ast.File{}
+
+// all non-test, non-instrumentation files of a package directory
+func pkgFiles(dir string) []*ast.File {
+	if fs, ok := pkgCache[dir]; ok {
+		return fs
+	}
+	var res []*ast.File
+	ents, _ := os.ReadDir(filepath.Join(root, dir))
+	var names []string
+	for _, e := range ents {
+		n := e.Name()
+		if e.IsDir() || !strings.HasSuffix(n, ".go") || strings.HasSuffix(n, "_test.go") || strings.HasPrefix(n, "verif_") {
+			continue
+		}
+		names = append(names, n)
+	}
+	sort.Strings(names)
+	for _, n := range names {
+		f, err := parser.ParseFile(fset, filepath.Join(root, dir, n), nil, 0)
+		if err == nil {
+			res = append(res, f)
+		}
+	}
+	pkgCache[dir] = res
+	return res
+}
+
+func parseFile(rel string) *ast.File {
 	f, err := parser.ParseFile(fset, filepath.Join(root, rel), nil, 0)
 	if err != nil {
 		return &ast.File{Name: ast.NewIdent("missing")}
@@ -34,18 +71,25 @@ func src(n ast.Node) string {
 	return strings.Join(strings.Fields(b.String()), " ")
 }
 
-func findFunc(f *ast.File, recv, name string) *ast.FuncDecl {
-	for _, d := range f.Decls {
-		fd, ok := d.(*ast.FuncDecl)
-		if !ok || fd.Name.Name != name {
-			continue
-		}
-		r := ""
-		if fd.Recv != nil && len(fd.Recv.List) > 0 {
-			r = strings.TrimPrefix(src(fd.Recv.List[0].Type), "*")
-		}
-		if r == recv {
-			return fd
+func recvName(fd *ast.FuncDecl) string {
+	if fd.Recv != nil && len(fd.Recv.List) > 0 {
+		return strings.TrimPrefix(src(fd.Recv.List[0].Type), "*")
+	}
+	return ""
+}
+
+// function or method `name` (receiver type recv, "" for a plain function; "*" for any) anywhere
+// in the package directory
+func findFunc(dir, recv, name string) *ast.FuncDecl {
+	for _, f := range pkgFiles(dir) {
+		for _, d := range f.Decls {
+			fd, ok := d.(*ast.FuncDecl)
+			if !ok || fd.Name.Name != name || fd.Body == nil {
+				continue
+			}
+			if recv == "*" || recvName(fd) == recv {
+				return fd
+			}
 		}
 	}
 	return nil
@@ -69,39 +113,49 @@ func coqZList(l []string) string {
 	return "[" + strings.Join(q, "; ") + "]"
 }
 
-// ---- middleware order: constructors assigned to p, in program order ----
+func coqPairList(l [][2]string) string {
+	q := make([]string, len(l))
+	for i, p := range l {
+		q[i] = "(" + coqStr(p[0]) + ", " + coqStr(p[1]) + ")"
+	}
+	return "[" + strings.Join(q, "; ") + "]"
+}
+
+// ---------------------------------------------------------------------------------------
+// middleware order: the constructors wrapped around p, in program order (innermost first)
+
 func stackOrder(fn string) []string {
-	f := parse("proxy/factory.go")
-	fd := findFunc(f, "defaultFactory", fn)
-	if fd == nil || fd.Body == nil {
+	fd := findFunc("proxy", "defaultFactory", fn)
+	if fd == nil {
 		return []string{"Unknown"}
 	}
 	var order []string
-	ast.Inspect(fd.Body, func(n ast.Node) bool {
-		as, ok := n.(*ast.AssignStmt)
-		if !ok || len(as.Lhs) < 1 || len(as.Rhs) < 1 {
-			return true
-		}
-		id, ok := as.Lhs[0].(*ast.Ident)
-		if !ok || (id.Name != "p" && id.Name != "backendProxy") {
-			if ix, ok2 := as.Lhs[0].(*ast.IndexExpr); !ok2 || src(ix.X) != "backendProxy" {
-				return true
-			}
-		}
-		call, ok := as.Rhs[0].(*ast.CallExpr)
+	record := func(e ast.Expr) {
+		call, ok := e.(*ast.CallExpr)
 		if !ok {
-			return true
+			return
 		}
 		inner := call
 		if c2, ok := call.Fun.(*ast.CallExpr); ok {
 			inner = c2
 		}
 		name := src(inner.Fun)
-		if name == "make" {
-			return true
+		if name == "make" || name == "append" || name == "len" {
+			return
 		}
-		// guarded by an if: record the condition
 		order = append(order, name)
+	}
+	ast.Inspect(fd.Body, func(n ast.Node) bool {
+		switch x := n.(type) {
+		case *ast.AssignStmt:
+			if len(x.Rhs) >= 1 {
+				record(x.Rhs[0])
+			}
+		case *ast.ReturnStmt:
+			for _, r := range x.Results {
+				record(r)
+			}
+		}
 		return true
 	})
 	if len(order) == 0 {
@@ -110,67 +164,37 @@ func stackOrder(fn string) []string {
 	return order
 }
 
-// ---- integer literals of the expression assigned to a variable in a function ----
-func assignLits(rel, recv, fn, variable string) ([]string, string) {
-	f := parse(rel)
-	var lits []string
-	expr := "Unknown"
-	var scope ast.Node = f
-	if fn != "" {
-		fd := findFunc(f, recv, fn)
-		if fd == nil || fd.Body == nil {
-			return []string{"-1"}, expr
-		}
-		scope = fd.Body
-	}
-	done := false
-	ast.Inspect(scope, func(n ast.Node) bool {
-		as, ok := n.(*ast.AssignStmt)
-		if !ok || done || len(as.Lhs) < 1 {
-			return true
-		}
-		if id, ok := as.Lhs[0].(*ast.Ident); ok && id.Name == variable {
-			ast.Inspect(as.Rhs[0], func(m ast.Node) bool {
-				if bl, ok := m.(*ast.BasicLit); ok && bl.Kind == token.INT {
-					lits = append(lits, bl.Value)
-				}
-				return true
-			})
-			expr = src(as.Rhs[0])
-			done = true
-		}
-		return true
-	})
-	if !done {
-		return []string{"-1"}, expr
-	}
-	return lits, expr
-}
+// ---------------------------------------------------------------------------------------
+// integer literals that make up the value assigned to a variable in a function; a call of a
+// same-package helper is followed one level (its arguments and its body)
 
-// ---- channels made in a function: (variable, capacity expression) ----
-func chanCaps(rel, recv, fn string) [][2]string {
-	f := parse(rel)
-	fd := findFunc(f, recv, fn)
-	if fd == nil || fd.Body == nil {
-		return [][2]string{{"Unknown", "Unknown"}}
-	}
-	var res [][2]string
-	ast.Inspect(fd.Body, func(n ast.Node) bool {
-		as, ok := n.(*ast.AssignStmt)
-		if !ok || len(as.Rhs) < 1 {
-			return true
-		}
-		call, ok := as.Rhs[0].(*ast.CallExpr)
-		if !ok {
-			return true
-		}
-		if id, ok := call.Fun.(*ast.Ident); ok && id.Name == "make" && len(call.Args) > 0 {
-			if _, ok := call.Args[0].(*ast.ChanType); ok {
-				capx := "0"
-				if len(call.Args) > 1 {
-					capx = src(call.Args[1])
+func litsOf(dir string, e ast.Expr, depth int) []int {
+	var res []int
+	ast.Inspect(e, func(m ast.Node) bool {
+		switch x := m.(type) {
+		case *ast.BasicLit:
+			if x.Kind == token.INT {
+				if v, err := strconv.Atoi(x.Value); err == nil {
+					res = append(res, v)
 				}
-				res = append(res, [2]string{src(as.Lhs[0]), capx})
+			}
+		case *ast.CallExpr:
+			if id, ok := x.Fun.(*ast.Ident); ok && depth < 2 {
+				if callee := findFunc(dir, "", id.Name); callee != nil {
+					ast.Inspect(callee.Body, func(k ast.Node) bool {
+						if r, ok := k.(*ast.ReturnStmt); ok {
+							for _, rr := range r.Results {
+								res = append(res, litsOf(dir, rr, depth+1)...)
+							}
+						}
+						if as, ok := k.(*ast.AssignStmt); ok {
+							for _, rr := range as.Rhs {
+								res = append(res, litsOf(dir, rr, depth+1)...)
+							}
+						}
+						return true
+					})
+				}
 			}
 		}
 		return true
@@ -178,192 +202,302 @@ func chanCaps(rel, recv, fn string) [][2]string {
 	return res
 }
 
-// ---- context derivations in a function: (kind, parent expression, duration expression) ----
-func ctxDerivations(rel, recv, fn string) []string {
-	f := parse(rel)
-	fd := findFunc(f, recv, fn)
-	if fd == nil || fd.Body == nil {
+func assignLits(dir, fn, variable string) []string {
+	fd := findFunc(dir, "*", fn)
+	if fd == nil {
+		return []string{"-1"}
+	}
+	var lits []int
+	found := false
+	seen := map[int]bool{}
+	ast.Inspect(fd.Body, func(n ast.Node) bool {
+		as, ok := n.(*ast.AssignStmt)
+		if !ok || len(as.Lhs) < 1 || len(as.Rhs) < 1 {
+			return true
+		}
+		// every assignment to the variable contributes (e.g. `scale := len(ws); if scale < 100 { scale = 100 }`)
+		if id, ok := as.Lhs[0].(*ast.Ident); ok && id.Name == variable {
+			for _, v := range litsOf(dir, as.Rhs[0], 0) {
+				if !seen[v] {
+					seen[v] = true
+					lits = append(lits, v)
+				}
+			}
+			found = true
+		}
+		return true
+	})
+	if !found || len(lits) == 0 {
+		return []string{"-1"}
+	}
+	sort.Ints(lits)
+	out := make([]string, len(lits))
+	for i, v := range lits {
+		out[i] = strconv.Itoa(v)
+	}
+	return out
+}
+
+// ---------------------------------------------------------------------------------------
+// channels made in a function: the class of each capacity
+//   "unbuffered" | "lit:<n>" | "expr:<canonical text>"   (a local bound once to an expression
+//   is replaced by that expression, so `n := remote.ConcurrentCalls; make(chan T, n)` and
+//   `make(chan T, remote.ConcurrentCalls)` give the same fact)
+
+func localBindings(fd *ast.FuncDecl) map[string]string {
+	b := map[string]string{}
+	count := map[string]int{}
+	ast.Inspect(fd.Body, func(n ast.Node) bool {
+		as, ok := n.(*ast.AssignStmt)
+		if !ok || len(as.Lhs) != 1 || len(as.Rhs) != 1 {
+			return true
+		}
+		if id, ok := as.Lhs[0].(*ast.Ident); ok {
+			count[id.Name]++
+			b[id.Name] = src(as.Rhs[0])
+		}
+		return true
+	})
+	for k := range b {
+		if count[k] != 1 {
+			delete(b, k)
+		}
+	}
+	return b
+}
+
+func chanCaps(dir, fn string) []string {
+	fd := findFunc(dir, "*", fn)
+	if fd == nil {
 		return []string{"Unknown"}
 	}
+	bind := localBindings(fd)
 	var res []string
 	ast.Inspect(fd.Body, func(n ast.Node) bool {
 		call, ok := n.(*ast.CallExpr)
 		if !ok {
 			return true
 		}
+		if id, ok := call.Fun.(*ast.Ident); ok && id.Name == "make" && len(call.Args) > 0 {
+			if _, ok := call.Args[0].(*ast.ChanType); ok {
+				if len(call.Args) == 1 {
+					res = append(res, "unbuffered")
+				} else if bl, ok := call.Args[1].(*ast.BasicLit); ok {
+					if bl.Value == "0" {
+						res = append(res, "unbuffered")
+					} else {
+						res = append(res, "lit:"+bl.Value)
+					}
+				} else {
+					t := src(call.Args[1])
+					if v, ok := bind[t]; ok {
+						t = v
+					}
+					res = append(res, "expr:"+t)
+				}
+			}
+		}
+		return true
+	})
+	if len(res) == 0 {
+		return []string{"Unknown"}
+	}
+	return res
+}
+
+// ---------------------------------------------------------------------------------------
+// context derivations: (constructor, class of the parent) with class
+//   "background" (context.Background()/TODO()) | "derived" (anything else: the incoming context
+//   or a context derived from it)
+
+func ctxClass(e ast.Expr) string {
+	t := src(e)
+	if t == "context.Background()" || t == "context.TODO()" {
+		return "background"
+	}
+	return "derived"
+}
+
+func ctxDerivationsIn(n ast.Node) [][2]string {
+	var res [][2]string
+	ast.Inspect(n, func(n ast.Node) bool {
+		call, ok := n.(*ast.CallExpr)
+		if !ok {
+			return true
+		}
 		se, ok := call.Fun.(*ast.SelectorExpr)
-		if !ok || src(se.X) != "context" {
+		if !ok || src(se.X) != "context" || len(call.Args) == 0 {
 			return true
 		}
 		switch se.Sel.Name {
 		case "WithTimeout", "WithCancel", "WithDeadline":
-			args := make([]string, len(call.Args))
-			for i, a := range call.Args {
-				args[i] = src(a)
-			}
-			res = append(res, se.Sel.Name+"("+strings.Join(args, ", ")+")")
+			res = append(res, [2]string{se.Sel.Name, ctxClass(call.Args[0])})
 		}
 		return true
 	})
 	return res
 }
 
-// number of calls of `cancel()` / `defer cancel()` style in a function
-func countCalls(rel, recv, fn, callee string) int {
-	f := parse(rel)
-	fd := findFunc(f, recv, fn)
-	if fd == nil || fd.Body == nil {
+func ctxDerivations(dir, fn string) [][2]string {
+	fd := findFunc(dir, "*", fn)
+	if fd == nil {
+		return [][2]string{{"Unknown", "Unknown"}}
+	}
+	return ctxDerivationsIn(fd.Body)
+}
+
+// cancel functions bound in a function and how often each is called (a `defer cancel()` counts)
+func cancelCalls(dir, fn string) int {
+	fd := findFunc(dir, "*", fn)
+	if fd == nil {
 		return -1
 	}
+	names := map[string]bool{}
+	ast.Inspect(fd.Body, func(n ast.Node) bool {
+		as, ok := n.(*ast.AssignStmt)
+		if !ok || len(as.Lhs) != 2 || len(as.Rhs) != 1 {
+			return true
+		}
+		if call, ok := as.Rhs[0].(*ast.CallExpr); ok {
+			if se, ok := call.Fun.(*ast.SelectorExpr); ok && src(se.X) == "context" {
+				if id, ok := as.Lhs[1].(*ast.Ident); ok {
+					names[id.Name] = true
+				}
+			}
+		}
+		return true
+	})
 	c := 0
 	ast.Inspect(fd.Body, func(n ast.Node) bool {
-		if call, ok := n.(*ast.CallExpr); ok && src(call.Fun) == callee {
-			c++
+		if call, ok := n.(*ast.CallExpr); ok {
+			if id, ok := call.Fun.(*ast.Ident); ok && names[id.Name] {
+				c++
+			}
 		}
 		return true
 	})
 	return c
 }
 
-// ---- lock bracketing of a function: Lock/Unlock/access events in program order;
-//      a deferred Unlock is moved to the end; same-receiver method calls are inlined once ----
-type lockCfg struct {
-	rel      string
-	mutexes  map[string]bool
-	data     map[string]bool
-	callKind string // how a method call on a shared object counts: LSafeCall (object locks itself), LRead, LWrite
-}
+// ---------------------------------------------------------------------------------------
+// statuses the default status handler lets through.  The decision expression (after following
+// one same-package predicate) must be built from comparisons of the status code with constants:
+//   code != A && code != B   (reject unless ...)   or   !(code == A || code == B)   or the positive form
 
-func lastName(s string) string {
-	s = strings.TrimPrefix(s, "*")
-	s = strings.Trim(s, "()")
-	s = strings.TrimPrefix(s, "*")
-	if i := strings.LastIndex(s, "."); i >= 0 {
-		return s[i+1:]
+var httpStatus = map[string]int{"http.StatusOK": 200, "http.StatusCreated": 201, "http.StatusAccepted": 202,
+	"http.StatusNonAuthoritativeInfo": 203, "http.StatusNoContent": 204, "http.StatusResetContent": 205,
+	"http.StatusPartialContent": 206, "http.StatusMultiStatus": 207, "http.StatusAlreadyReported": 208, "http.StatusIMUsed": 226}
+
+func acceptedStatuses() []string {
+	dir := "transport/http/client"
+	fd := findFunc(dir, "", "DefaultHTTPStatusHandler")
+	if fd == nil {
+		return []string{"-1"}
 	}
-	return s
-}
-
-func lockEvents(f *ast.File, cfg lockCfg, fd *ast.FuncDecl, depth int) []string {
-	var evs, deferred []string
-	recvName, recvType := "", ""
-	if fd.Recv != nil && len(fd.Recv.List) > 0 {
-		if len(fd.Recv.List[0].Names) > 0 {
-			recvName = fd.Recv.List[0].Names[0].Name
+	var cond ast.Expr
+	for _, st := range fd.Body.List {
+		if is, ok := st.(*ast.IfStmt); ok {
+			cond = is.Cond
+			break
 		}
-		recvType = strings.TrimPrefix(src(fd.Recv.List[0].Type), "*")
 	}
-	var visit func(n ast.Node) bool
-	visit = func(n ast.Node) bool {
-		switch x := n.(type) {
-		case *ast.DeferStmt:
-			if se, ok := x.Call.Fun.(*ast.SelectorExpr); ok && cfg.mutexes[lastName(src(se.X))] {
-				deferred = append([]string{"L" + se.Sel.Name + " " + coqStr(lastName(src(se.X)))}, deferred...)
-				return false
+	if cond == nil {
+		return []string{"-1"}
+	}
+	var res []int
+	bad := false
+	var walk func(e ast.Expr, depth int)
+	walk = func(e ast.Expr, depth int) {
+		switch x := e.(type) {
+		case *ast.ParenExpr:
+			walk(x.X, depth)
+		case *ast.UnaryExpr:
+			if x.Op == token.NOT {
+				walk(x.X, depth)
+				return
+			}
+			bad = true
+		case *ast.BinaryExpr:
+			switch x.Op {
+			case token.LAND, token.LOR:
+				walk(x.X, depth)
+				walk(x.Y, depth)
+			case token.NEQ, token.EQL:
+				for _, side := range []ast.Expr{x.X, x.Y} {
+					if v, ok := httpStatus[src(side)]; ok {
+						res = append(res, v)
+						return
+					}
+					if bl, ok := side.(*ast.BasicLit); ok && bl.Kind == token.INT {
+						v, _ := strconv.Atoi(bl.Value)
+						res = append(res, v)
+						return
+					}
+				}
+				bad = true
+			default:
+				bad = true // ranges (<, >=) are a different rule: not summarised
 			}
 		case *ast.CallExpr:
-			// call of a plain function of the same file: inline its events
 			if id, ok := x.Fun.(*ast.Ident); ok && depth < 2 {
-				if callee := findFunc(f, "", id.Name); callee != nil && callee.Body != nil && callee != fd {
-					for _, a := range x.Args {
-						ast.Inspect(a, visit)
-					}
-					evs = append(evs, lockEvents(f, cfg, callee, depth+1)...)
-					return false
-				}
-			}
-			if se, ok := x.Fun.(*ast.SelectorExpr); ok {
-				base := lastName(src(se.X))
-				if cfg.mutexes[base] {
-					evs = append(evs, "L"+se.Sel.Name+" "+coqStr(base))
-					return false
-				}
-				if cfg.data[base] {
-					if cfg.callKind == "LSafeCall" {
-						evs = append(evs, "LSafeCall "+coqStr(base)+" "+coqStr(se.Sel.Name))
-					} else {
-						evs = append(evs, cfg.callKind+" "+coqStr(base))
-					}
-				}
-				// same-receiver method call: inline
-				if recvName != "" && src(se.X) == recvName && depth < 2 {
-					if callee := findFunc(f, recvType, se.Sel.Name); callee != nil && callee.Body != nil {
-						for _, a := range x.Args {
-							ast.Inspect(a, visit)
+				if callee := findFunc(dir, "", id.Name); callee != nil {
+					// a predicate written as `return a == X || a == Y` ...
+					if len(callee.Body.List) == 1 {
+						if r, ok := callee.Body.List[0].(*ast.ReturnStmt); ok && len(r.Results) == 1 {
+							walk(r.Results[0], depth+1)
+							return
 						}
-						evs = append(evs, lockEvents(f, cfg, callee, depth+1)...)
-						return false
+					}
+					// ... or as `switch code { case X, Y: return true }; return false`
+					okShape := false
+					for _, st := range callee.Body.List {
+						if sw, ok := st.(*ast.SwitchStmt); ok && sw.Tag != nil {
+							for _, c := range sw.Body.List {
+								cc := c.(*ast.CaseClause)
+								if len(cc.Body) == 1 && src(cc.Body[0]) == "return true" {
+									for _, e := range cc.List {
+										if v, ok := httpStatus[src(e)]; ok {
+											res = append(res, v)
+											okShape = true
+										} else if bl, ok := e.(*ast.BasicLit); ok && bl.Kind == token.INT {
+											v, _ := strconv.Atoi(bl.Value)
+											res = append(res, v)
+											okShape = true
+										} else {
+											bad = true
+										}
+									}
+								}
+							}
+						}
+					}
+					if okShape {
+						return
 					}
 				}
 			}
-		case *ast.AssignStmt:
-			// writes: *(x.cache) = ..., x.data[k] = ...
-			for _, l := range x.Lhs {
-				switch t := l.(type) {
-				case *ast.StarExpr:
-					if cfg.data[lastName(src(t.X))] {
-						evs = append(evs, "LWrite "+coqStr(lastName(src(t.X))))
-					}
-				case *ast.IndexExpr:
-					if cfg.data[lastName(src(t.X))] {
-						evs = append(evs, "LWrite "+coqStr(lastName(src(t.X))))
-					}
-				case *ast.SelectorExpr, *ast.Ident:
-					if cfg.data[lastName(src(t))] {
-						evs = append(evs, "LWrite "+coqStr(lastName(src(t))))
-					}
-				}
-			}
-			for _, r := range x.Rhs {
-				ast.Inspect(r, visit)
-			}
-			return false
-		case *ast.IndexExpr:
-			if cfg.data[lastName(src(x.X))] {
-				evs = append(evs, "LRead "+coqStr(lastName(src(x.X))))
-			}
-		case *ast.RangeStmt:
-			if cfg.data[lastName(src(x.X))] {
-				evs = append(evs, "LRead "+coqStr(lastName(src(x.X))))
-			}
-		case *ast.StarExpr:
-			if cfg.data[lastName(src(x.X))] {
-				evs = append(evs, "LRead "+coqStr(lastName(src(x.X))))
-			}
-		case *ast.FuncLit:
-			return false // closures (goroutines) are separate programs
+			bad = true
+		default:
+			bad = true
 		}
-		return true
 	}
-	ast.Inspect(fd.Body, visit)
-	return append(evs, deferred...)
+	walk(cond, 0)
+	if bad || len(res) == 0 {
+		return []string{"-1"}
+	}
+	sort.Ints(res)
+	out := make([]string, len(res))
+	for i, v := range res {
+		out[i] = strconv.Itoa(v)
+	}
+	return out
 }
 
-func lockFacts(pkg string, cfg lockCfg) [][2]string {
-	f := parse(cfg.rel)
-	var res [][2]string
-	for _, d := range f.Decls {
-		fd, ok := d.(*ast.FuncDecl)
-		if !ok || fd.Body == nil {
-			continue
-		}
-		evs := lockEvents(f, cfg, fd, 0)
-		if len(evs) == 0 {
-			continue
-		}
-		name := fd.Name.Name
-		if fd.Recv != nil && len(fd.Recv.List) > 0 {
-			name = strings.TrimPrefix(src(fd.Recv.List[0].Type), "*") + "." + name
-		}
-		res = append(res, [2]string{pkg + "." + name, "[" + strings.Join(evs, "; ") + "]"})
-	}
-	sort.Slice(res, func(i, j int) bool { return res[i][0] < res[j][0] })
-	return res
-}
+// ---------------------------------------------------------------------------------------
+// package-level constants / variables with literal values
 
-// ---- package-level constants / variables with literal values ----
 func declValue(rel, name string) string {
-	f := parse(rel)
+	f := parseFile(rel)
 	val := "Unknown"
 	for _, d := range f.Decls {
 		gd, ok := d.(*ast.GenDecl)
@@ -392,25 +526,13 @@ func unq(s string) string {
 	return s
 }
 
-// condition of the first if statement of a function
-func firstIfCond(rel, recv, fn string) string {
-	f := parse(rel)
-	fd := findFunc(f, recv, fn)
-	if fd == nil || fd.Body == nil {
-		return "Unknown"
-	}
-	for _, st := range fd.Body.List {
-		if is, ok := st.(*ast.IfStmt); ok {
-			return src(is.Cond)
-		}
-	}
-	return "Unknown"
-}
+// ---------------------------------------------------------------------------------------
+// the server runner: which communications its select waits on (as a sorted set: the order of
+// select cases has no meaning), what Shutdown is called with, and the capacity class of the
+// channel the serving goroutine reports on
 
-// shape of the select in the server runner and the Shutdown argument
 func serverRunner() (selectCases []string, shutdownArg string, doneCap string) {
-	f := parse("transport/http/server/server.go")
-	fd := findFunc(f, "", "RunServerWithLoggerFactory")
+	fd := findFunc("transport/http/server", "", "RunServerWithLoggerFactory")
 	shutdownArg, doneCap = "Unknown", "Unknown"
 	if fd == nil {
 		return []string{"Unknown"}, shutdownArg, doneCap
@@ -420,89 +542,356 @@ func serverRunner() (selectCases []string, shutdownArg string, doneCap string) {
 		case *ast.SelectStmt:
 			for _, c := range x.Body.List {
 				cc := c.(*ast.CommClause)
-				if cc.Comm == nil {
+				switch {
+				case cc.Comm == nil:
 					selectCases = append(selectCases, "default")
-				} else {
-					selectCases = append(selectCases, src(cc.Comm))
+				case strings.Contains(src(cc.Comm), ".Done()"):
+					selectCases = append(selectCases, "ctx-done")
+				case strings.Contains(src(cc.Comm), "<-"):
+					selectCases = append(selectCases, "recv")
+				default:
+					selectCases = append(selectCases, "other")
 				}
 			}
 		case *ast.CallExpr:
 			if se, ok := x.Fun.(*ast.SelectorExpr); ok && se.Sel.Name == "Shutdown" && len(x.Args) == 1 {
-				shutdownArg = src(x.Args[0])
-			}
-			if id, ok := x.Fun.(*ast.Ident); ok && id.Name == "make" && len(x.Args) > 0 {
-				if _, ok := x.Args[0].(*ast.ChanType); ok {
-					doneCap = "0"
-					if len(x.Args) > 1 {
-						doneCap = src(x.Args[1])
-					}
-				}
+				shutdownArg = ctxClass(x.Args[0])
 			}
 		}
 		return true
 	})
+	caps := chanCaps("transport/http/server", "RunServerWithLoggerFactory")
+	if len(caps) == 1 {
+		doneCap = caps[0]
+	}
+	sort.Strings(selectCases)
 	if len(selectCases) == 0 {
 		selectCases = []string{"Unknown"}
 	}
 	return
 }
 
-// statuses the default status handler accepts: the condition must be a conjunction of
-// `resp.StatusCode != http.StatusX` terms; anything else yields [-1]
-var httpStatus = map[string]int{"http.StatusOK": 200, "http.StatusCreated": 201, "http.StatusAccepted": 202,
-	"http.StatusNonAuthoritativeInfo": 203, "http.StatusNoContent": 204, "http.StatusResetContent": 205,
-	"http.StatusPartialContent": 206, "http.StatusMultiStatus": 207, "http.StatusAlreadyReported": 208, "http.StatusIMUsed": 226}
+// ---------------------------------------------------------------------------------------
+// lock bracketing: for every function of a file that touches the shared object, every PATH
+// through it (an `if ... { ...; return }` forks a path; a deferred unlock is appended to every
+// path; same-receiver methods and plain functions of the package are inlined) as a list of
+// events  LLock/LUnlock/LRLock/LRUnlock m | LRead o | LWrite o | LSafeCall o f
 
-func acceptedStatuses() []string {
-	f := parse("transport/http/client/status.go")
-	fd := findFunc(f, "", "DefaultHTTPStatusHandler")
-	if fd == nil || fd.Body == nil {
-		return []string{"-1"}
+type lockCfg struct {
+	dir      string
+	file     string
+	mutexes  map[string]bool
+	data     map[string]bool
+	callKind string // how a method call on the shared object counts: LSafeCall (object locks itself), LRead, LWrite
+}
+
+func lastName(s string) string {
+	s = strings.TrimPrefix(s, "*")
+	s = strings.Trim(s, "()")
+	s = strings.TrimPrefix(s, "*")
+	if i := strings.LastIndex(s, "."); i >= 0 {
+		return s[i+1:]
 	}
-	var cond ast.Expr
-	for _, st := range fd.Body.List {
-		if is, ok := st.(*ast.IfStmt); ok {
-			cond = is.Cond
-			break
+	return s
+}
+
+type pathSet struct {
+	open   [][]string // paths that fall through
+	closed [][]string // paths that returned
+}
+
+const maxPaths = 64
+
+type lockWalker struct {
+	cfg   lockCfg
+	fd    *ast.FuncDecl
+	depth int
+}
+
+// events of an expression / simple statement, in evaluation order (no control flow inside)
+func (w *lockWalker) events(n ast.Node) [][]string {
+	// returns alternative event lists (inlined callees may fork)
+	alts := [][]string{{}}
+	add := func(e string) {
+		for i := range alts {
+			alts[i] = append(alts[i], e)
 		}
 	}
-	var res []string
-	bad := false
-	var walk func(e ast.Expr)
-	walk = func(e ast.Expr) {
-		switch x := e.(type) {
-		case *ast.ParenExpr:
-			walk(x.X)
-		case *ast.BinaryExpr:
-			if x.Op == token.LAND {
-				walk(x.X)
-				walk(x.Y)
-				return
-			}
-			if x.Op == token.NEQ && src(x.X) == "resp.StatusCode" {
-				if v, ok := httpStatus[src(x.Y)]; ok {
-					res = append(res, strconv.Itoa(v))
-					return
-				}
-				if bl, ok := x.Y.(*ast.BasicLit); ok && bl.Kind == token.INT {
-					res = append(res, bl.Value)
-					return
+	rName, rType := "", ""
+	if w.fd.Recv != nil && len(w.fd.Recv.List) > 0 {
+		if len(w.fd.Recv.List[0].Names) > 0 {
+			rName = w.fd.Recv.List[0].Names[0].Name
+		}
+		rType = recvName(w.fd)
+	}
+	var visit func(n ast.Node) bool
+	inline := func(callee *ast.FuncDecl, args []ast.Expr) {
+		for _, a := range args {
+			ast.Inspect(a, visit)
+		}
+		sub := (&lockWalker{cfg: w.cfg, fd: callee, depth: w.depth + 1}).paths()
+		var next [][]string
+		for _, p := range alts {
+			for _, q := range sub {
+				if len(next) < maxPaths {
+					next = append(next, append(append([]string{}, p...), q...))
 				}
 			}
-			bad = true
-		default:
-			bad = true
+		}
+		if len(next) > 0 {
+			alts = next
 		}
 	}
-	if cond == nil {
-		return []string{"-1"}
+	visit = func(n ast.Node) bool {
+		switch x := n.(type) {
+		case *ast.FuncLit:
+			return false // closures (goroutines) are separate programs
+		case *ast.CallExpr:
+			if id, ok := x.Fun.(*ast.Ident); ok && w.depth < 2 {
+				if callee := findFunc(w.cfg.dir, "", id.Name); callee != nil && callee != w.fd {
+					inline(callee, x.Args)
+					return false
+				}
+			}
+			if se, ok := x.Fun.(*ast.SelectorExpr); ok {
+				base := lastName(src(se.X))
+				if w.cfg.mutexes[base] {
+					add("L" + se.Sel.Name + " " + coqStr(base))
+					return false
+				}
+				if w.cfg.data[base] {
+					if w.cfg.callKind == "LSafeCall" {
+						add("LSafeCall " + coqStr(base) + " " + coqStr(se.Sel.Name))
+					} else {
+						add(w.cfg.callKind + " " + coqStr(base))
+					}
+				}
+				if rName != "" && src(se.X) == rName && w.depth < 2 {
+					if callee := findFunc(w.cfg.dir, rType, se.Sel.Name); callee != nil && callee != w.fd {
+						inline(callee, x.Args)
+						return false
+					}
+				}
+			}
+		case *ast.AssignStmt:
+			for _, r := range x.Rhs {
+				ast.Inspect(r, visit)
+			}
+			for _, l := range x.Lhs {
+				switch t := l.(type) {
+				case *ast.StarExpr:
+					if w.cfg.data[lastName(src(t.X))] {
+						add("LWrite " + coqStr(lastName(src(t.X))))
+					}
+				case *ast.IndexExpr:
+					if w.cfg.data[lastName(src(t.X))] {
+						add("LWrite " + coqStr(lastName(src(t.X))))
+					}
+				case *ast.SelectorExpr, *ast.Ident:
+					if w.cfg.data[lastName(src(t))] {
+						add("LWrite " + coqStr(lastName(src(t))))
+					}
+				}
+			}
+			return false
+		case *ast.IndexExpr:
+			if w.cfg.data[lastName(src(x.X))] {
+				add("LRead " + coqStr(lastName(src(x.X))))
+			}
+		case *ast.StarExpr:
+			if w.cfg.data[lastName(src(x.X))] {
+				add("LRead " + coqStr(lastName(src(x.X))))
+			}
+		}
+		return true
 	}
-	walk(cond)
-	if bad || len(res) == 0 {
-		return []string{"-1"}
+	ast.Inspect(n, visit)
+	return alts
+}
+
+func cross(ps [][]string, alts [][]string) [][]string {
+	var res [][]string
+	for _, p := range ps {
+		for _, a := range alts {
+			if len(res) < maxPaths {
+				res = append(res, append(append([]string{}, p...), a...))
+			}
+		}
 	}
 	return res
 }
+
+func (w *lockWalker) block(stmts []ast.Stmt, in [][]string) pathSet {
+	ps := pathSet{open: in}
+	for _, st := range stmts {
+		if len(ps.open) == 0 {
+			break
+		}
+		switch x := st.(type) {
+		case *ast.DeferStmt:
+			if se, ok := x.Call.Fun.(*ast.SelectorExpr); ok && w.cfg.mutexes[lastName(src(se.X))] {
+				// a marker in the path: only the paths that pass the defer statement run it
+				ps.open = cross(ps.open, [][]string{{"DEFER!L" + se.Sel.Name + " " + coqStr(lastName(src(se.X)))}})
+				continue
+			}
+			ps.open = cross(ps.open, w.events(x.Call))
+		case *ast.ReturnStmt:
+			out := ps.open
+			for _, r := range x.Results {
+				out = cross(out, w.events(r))
+			}
+			ps.closed = append(ps.closed, out...)
+			ps.open = nil
+		case *ast.BlockStmt:
+			sub := w.block(x.List, ps.open)
+			ps.open, ps.closed = sub.open, append(ps.closed, sub.closed...)
+		case *ast.IfStmt:
+			start := ps.open
+			if x.Init != nil {
+				start = cross(start, w.events(x.Init))
+			}
+			start = cross(start, w.events(x.Cond))
+			thenP := w.block(x.Body.List, start)
+			var elseP pathSet
+			switch e := x.Else.(type) {
+			case nil:
+				elseP = pathSet{open: start}
+			case *ast.BlockStmt:
+				elseP = w.block(e.List, start)
+			default:
+				elseP = w.block([]ast.Stmt{e}, start)
+			}
+			ps.open = append(thenP.open, elseP.open...)
+			ps.closed = append(append(ps.closed, thenP.closed...), elseP.closed...)
+		case *ast.ForStmt:
+			start := ps.open
+			if x.Init != nil {
+				start = cross(start, w.events(x.Init))
+			}
+			if x.Cond != nil {
+				start = cross(start, w.events(x.Cond))
+			}
+			body := w.block(x.Body.List, start) // the body once, or not at all
+			ps.open = append(start, body.open...)
+			ps.closed = append(ps.closed, body.closed...)
+		case *ast.RangeStmt:
+			start := ps.open
+			if w.cfg.data[lastName(src(x.X))] {
+				start = cross(start, [][]string{{"LRead " + coqStr(lastName(src(x.X)))}})
+			} else {
+				start = cross(start, w.events(x.X))
+			}
+			body := w.block(x.Body.List, start)
+			ps.open = append(start, body.open...)
+			ps.closed = append(ps.closed, body.closed...)
+		case *ast.SwitchStmt:
+			start := ps.open
+			if x.Init != nil {
+				start = cross(start, w.events(x.Init))
+			}
+			if x.Tag != nil {
+				start = cross(start, w.events(x.Tag))
+			}
+			var open [][]string
+			hasDefault := false
+			for _, c := range x.Body.List {
+				cc := c.(*ast.CaseClause)
+				if cc.List == nil {
+					hasDefault = true
+				}
+				s := start
+				for _, e := range cc.List {
+					s = cross(s, w.events(e))
+				}
+				sub := w.block(cc.Body, s)
+				open = append(open, sub.open...)
+				ps.closed = append(ps.closed, sub.closed...)
+			}
+			if !hasDefault {
+				open = append(open, start...)
+			}
+			ps.open = open
+		default:
+			ps.open = cross(ps.open, w.events(st))
+		}
+		if len(ps.open) > maxPaths {
+			ps.open = ps.open[:maxPaths]
+		}
+	}
+	return ps
+}
+
+// all complete paths of the function, deferred unlocks appended
+func (w *lockWalker) paths() [][]string {
+	ps := w.block(w.fd.Body.List, [][]string{{}})
+	all := append(ps.closed, ps.open...)
+	seen := map[string]bool{}
+	var res [][]string
+	for _, p := range all {
+		var q, deferred []string
+		for _, e := range p {
+			if strings.HasPrefix(e, "DEFER!") {
+				deferred = append([]string{strings.TrimPrefix(e, "DEFER!")}, deferred...) // LIFO
+			} else {
+				q = append(q, e)
+			}
+		}
+		if w.depth > 0 {
+			// an inlined callee: its deferred calls run when IT returns
+			q = append(q, deferred...)
+		} else {
+			q = append(q, deferred...)
+		}
+		if q == nil {
+			q = []string{}
+		}
+		k := strings.Join(q, ";")
+		if !seen[k] {
+			seen[k] = true
+			res = append(res, q)
+		}
+	}
+	if len(res) > maxPaths {
+		res = res[:maxPaths]
+	}
+	return res
+}
+
+func lockFacts(pkg string, cfg lockCfg) [][2]string {
+	var res [][2]string
+	for _, f := range pkgFiles(cfg.dir) {
+		if cfg.file != "" && filepath.Base(fset.Position(f.Pos()).Filename) != cfg.file {
+			continue
+		}
+		for _, d := range f.Decls {
+			fd, ok := d.(*ast.FuncDecl)
+			if !ok || fd.Body == nil {
+				continue
+			}
+			paths := (&lockWalker{cfg: cfg, fd: fd}).paths()
+			touches := false
+			var ps []string
+			for _, p := range paths {
+				if len(p) > 0 {
+					touches = true
+				}
+				ps = append(ps, "["+strings.Join(p, "; ")+"]")
+			}
+			if !touches {
+				continue
+			}
+			name := fd.Name.Name
+			if r := recvName(fd); r != "" {
+				name = r + "." + name
+			}
+			res = append(res, [2]string{pkg + "." + name, "[" + strings.Join(ps, "; ") + "]"})
+		}
+	}
+	sort.Slice(res, func(i, j int) bool { return res[i][0] < res[j][0] })
+	return res
+}
+
+// ---------------------------------------------------------------------------------------
 
 func main() {
 	root = "/repo"
@@ -521,35 +910,32 @@ func main() {
 		pf("Definition stack_%s : list string := %s.\n", fn, coqStrList(stackOrder(fn)))
 	}
 	p("")
-	l, e := assignLits("proxy/merging.go", "", "NewMergeDataMiddleware", "serviceTimeout")
-	pf("Definition merge_timeout_lits : list Z := %s.\nDefinition merge_timeout_expr : string := %s.\n", coqZList(l), coqStr(e))
-	l, e = assignLits("proxy/concurrent.go", "", "NewConcurrentMiddlewareWithLogger", "serviceTimeout")
-	pf("Definition concurrent_timeout_lits : list Z := %s.\nDefinition concurrent_timeout_expr : string := %s.\n", coqZList(l), coqStr(e))
-	l, e = assignLits("sd/dnssrv/subscriber.go", "", "normalize", "scale")
-	pf("Definition srv_scale_lits : list Z := %s.\n", coqZList(l))
+	pf("Definition merge_timeout_lits : list Z := %s.\n", coqZList(assignLits("proxy", "NewMergeDataMiddleware", "serviceTimeout")))
+	pf("Definition concurrent_timeout_lits : list Z := %s.\n", coqZList(assignLits("proxy", "NewConcurrentMiddlewareWithLogger", "serviceTimeout")))
+	pf("Definition srv_scale_lits : list Z := %s.\n", coqZList(assignLits("sd/dnssrv", "normalize", "scale")))
 	p("")
-	for _, fc := range [][3]string{{"proxy/merging.go", "parallelMerge", "chans_parallelMerge"}, {"proxy/concurrent.go", "NewConcurrentMiddlewareWithLogger", "chans_concurrent"}, {"transport/http/server/server.go", "RunServerWithLoggerFactory", "chans_runServer"}} {
-		cs := chanCaps(fc[0], "", fc[1])
-		q := make([]string, len(cs))
-		for i, c := range cs {
-			q[i] = "(" + coqStr(c[0]) + ", " + coqStr(c[1]) + ")"
+	pf("Definition chans_parallelMerge : list string := %s.\n", coqStrList(chanCaps("proxy", "parallelMerge")))
+	pf("Definition chans_concurrent : list string := %s.\n", coqStrList(chanCaps("proxy", "NewConcurrentMiddlewareWithLogger")))
+	p("")
+	for _, fc := range [][2]string{{"parallelMerge", "ctx_parallelMerge"}, {"sequentialMerge", "ctx_sequentialMerge"}, {"requestPart", "ctx_requestPart"},
+		{"NewConcurrentMiddlewareWithLogger", "ctx_concurrent"}, {"processConcurrentCall", "ctx_processConcurrentCall"}} {
+		pf("Definition %s : list (string * string) := %s.\n", fc[1], coqPairList(ctxDerivations("proxy", fc[0])))
+	}
+	// every context derivation written in proxy/shadow.go
+	sh := ctxDerivationsIn(parseFile("proxy/shadow.go"))
+	if len(sh) == 0 {
+		sh = [][2]string{{"Unknown", "Unknown"}}
+	}
+	pf("Definition ctx_shadow : list (string * string) := %s.\n", coqPairList(sh))
+	for _, fn := range []string{"parallelMerge", "sequentialMerge", "requestPart", "NewConcurrentMiddlewareWithLogger", "processConcurrentCall"} {
+		name := fn
+		if fn == "NewConcurrentMiddlewareWithLogger" {
+			name = "concurrent"
 		}
-		pf("Definition %s : list (string * string) := [%s].\n", fc[2], strings.Join(q, "; "))
+		pf("Definition cancel_calls_%s : Z := (%d)%%Z.\n", name, cancelCalls("proxy", fn))
 	}
-	p("")
-	for _, fc := range [][3]string{{"proxy/merging.go", "parallelMerge", "ctx_parallelMerge"}, {"proxy/merging.go", "sequentialMerge", "ctx_sequentialMerge"},
-		{"proxy/merging.go", "requestPart", "ctx_requestPart"}, {"proxy/concurrent.go", "NewConcurrentMiddlewareWithLogger", "ctx_concurrent"},
-		{"proxy/concurrent.go", "processConcurrentCall", "ctx_processConcurrentCall"}, {"proxy/shadow.go", "newContextWrapperWithTimeout", "ctx_shadow"}} {
-		pf("Definition %s : list string := %s.\n", fc[2], coqStrList(ctxDerivations(fc[0], "", fc[1])))
-	}
-	pf("Definition cancel_calls_parallelMerge : Z := (%d)%%Z.\n", countCalls("proxy/merging.go", "", "parallelMerge", "cancel"))
-	pf("Definition cancel_calls_sequentialMerge : Z := (%d)%%Z.\n", countCalls("proxy/merging.go", "", "sequentialMerge", "cancel"))
-	pf("Definition cancel_calls_requestPart : Z := (%d)%%Z.\n", countCalls("proxy/merging.go", "", "requestPart", "cancel"))
-	pf("Definition cancel_calls_concurrent : Z := (%d)%%Z.\n", countCalls("proxy/concurrent.go", "", "NewConcurrentMiddlewareWithLogger", "cancel"))
-	pf("Definition cancel_calls_processConcurrentCall : Z := (%d)%%Z.\n", countCalls("proxy/concurrent.go", "", "processConcurrentCall", "cancel"))
 	p("")
 	pf("Definition default_status_accepted : list Z := %s.\n", coqZList(acceptedStatuses()))
-	pf("Definition default_status_cond : string := %s.\n", coqStr(firstIfCond("transport/http/client/status.go", "", "DefaultHTTPStatusHandler")))
 	pf("Definition hdr_complete_name : string := %s.\n", coqStr(unq(declValue("transport/http/server/server.go", "CompleteResponseHeaderName"))))
 	pf("Definition hdr_complete_true : string := %s.\n", coqStr(unq(declValue("transport/http/server/server.go", "HeaderCompleteResponseValue"))))
 	pf("Definition hdr_complete_false : string := %s.\n", coqStr(unq(declValue("transport/http/server/server.go", "HeaderIncompleteResponseValue"))))
@@ -561,7 +947,7 @@ func main() {
 	p("")
 	mn := map[string]bool{"mutex": true, "mu": true, "randomMu": true, "renderRegisterMu": true, "RWMutex": true}
 	emitLocks := func(name string, all [][2]string) {
-		pf("Definition lock_events_%s : list (string * list lev) := [\n", name)
+		pf("Definition lock_paths_%s : list (string * list (list lev)) := [\n", name)
 		for i, a := range all {
 			sep := ";"
 			if i == len(all)-1 {
@@ -571,9 +957,9 @@ func main() {
 		}
 		p("].")
 	}
-	emitLocks("register", lockFacts("register", lockCfg{"register/register.go", mn, map[string]bool{"data": true}, "LSafeCall"}))
-	emitLocks("render", append(lockFacts("gin", lockCfg{"router/gin/render.go", mn, map[string]bool{"renderRegister": true}, "LRead"}),
-		lockFacts("mux", lockCfg{"router/mux/render.go", mn, map[string]bool{"renderRegister": true}, "LRead"})...))
-	emitLocks("backoff", lockFacts("backoff", lockCfg{"backoff/backoff.go", mn, map[string]bool{"random": true}, "LWrite"}))
-	emitLocks("dnssrv", lockFacts("dnssrv", lockCfg{"sd/dnssrv/subscriber.go", mn, map[string]bool{"cache": true}, "LRead"}))
+	emitLocks("register", lockFacts("register", lockCfg{"register", "register.go", mn, map[string]bool{"data": true}, "LSafeCall"}))
+	emitLocks("render", append(lockFacts("gin", lockCfg{"router/gin", "render.go", mn, map[string]bool{"renderRegister": true}, "LRead"}),
+		lockFacts("mux", lockCfg{"router/mux", "render.go", mn, map[string]bool{"renderRegister": true}, "LRead"})...))
+	emitLocks("backoff", lockFacts("backoff", lockCfg{"backoff", "backoff.go", mn, map[string]bool{"random": true}, "LWrite"}))
+	emitLocks("dnssrv", lockFacts("dnssrv", lockCfg{"sd/dnssrv", "subscriber.go", mn, map[string]bool{"cache": true}, "LRead"}))
 }
